@@ -14,7 +14,7 @@ import (
 )
 
 func init() {
-	register(&Rule{ID: "R-STACK", Props: []string{"C08", "C10", "C01"}, Doc: "state stacks (css.Parser.state, json.Parser.state, js.Lexer.templateLevels) never lose their bottom element", Run: runStack})
+	register(&Rule{ID: "R-STACK", Props: []string{"C08", "C10", "C01"}, Doc: "state stacks (the css parser's []State, the json parser's []State, the js lexer's []int of template levels) never lose their bottom element", Run: runStack})
 	register(&Rule{ID: "R-BEGINEND", Props: []string{"C08"}, Doc: "css parser: every push returns the matching Begin unit, every pop of a pushed state returns the matching End unit", Run: runBeginEnd})
 }
 
